@@ -102,6 +102,17 @@ func ZZ_C09_Election() {
 	zzmodel.NoFaults = true
 	e.f.noFail = true
 	e.f.onSignal = nil
+	if elected != "" && zzNondetBool("start.from-a-host-whose-name-extends-the-elected-one") {
+		// another replica whose address merely starts like the elected one's (10.0.0.1 vs
+		// 10.0.0.12): it was not elected and must not be able to start the volume
+		sib := "tcp://" + elected + "2:9502"
+		zzmodel.New(sib)
+		serr := c.Start(sib)
+		zzReach("C09.start.sibling")
+		zzAssert(serr != nil, "C09.volume-started-by-a-replica-whose-address-only-resembles-the-elected-one")
+		zzAssert(len(c.replicas) == 0, "C09.non-elected-look-alike-replica-attached")
+		return
+	}
 	zzmodel.Replicas[zzAddrs[x]].RevCounter = rev[x]
 	err := c.Start(zzAddrs[x])
 	if err == nil && len(c.replicas) > 0 {
